@@ -23,6 +23,9 @@ FIN = {"apply_derivatives"}
 D2 = {"grad", "div", "curl", "nabla_grad", "nabla_div", "dx"}
 
 
+MATH = {"exp", "ln", "sin", "cos", "tan", "sinh", "cosh", "tanh", "asin", "atan"}
+
+
 def slices(tier):
     q = tier == "quick"
     J2 = dict(mode="spatial", ndir=2)
@@ -34,7 +37,23 @@ def slices(tier):
         Slice("d-of-expr", [F, G, U], D2 | E, 3, idx=(10,), lits=[LIT["two"]], jets=J2, levels=[E, D2, FIN], mikinds=("name", "fixed"), **kw),
         Slice("d-d", [F, U], D2, 3, idx=(10,), jets=J2, levels=[D2, D2, FIN], mikinds=("name", "fixed"), **kw),
         Slice("expr-of-d", [F, G, U], D2 | E, 3, idx=(10,), lits=[LIT["two"]], jets=J2, levels=[D2, {"mul", "add", "index", "dot", "inner", "div", "abs", "pow"}, FIN], mikinds=("name", "fixed"), **kw),
+        # rank-3 results: grad / nabla_grad of a rank-2 field (the order of ALL trailing axes matters), second gradients
+        Slice("rank3", [U, A], {"grad", "nabla_grad", "div", "nabla_div", "index"}, 3, idx=(10,), maxrank=3, jets=J2,
+              levels=[{"grad", "nabla_grad"}, {"grad", "nabla_grad", "div", "nabla_div", "index"} | FIN, FIN], mikinds=("fixed",), chain=True, **kw),
+        # chain rule through exp, ln, sin, ...: z vanishes at the point and o is 1 there, with generic gradients and Hessians
+        Slice("math", [("z", ()), ("o", ()), F], MATH | {"mul", "grad", "dx", "div"}, 4, idx=(10,), jets=J2, fixed={"z": 0, "o": 1},
+              levels=[MATH | {"mul"}, {"grad", "dx"}, FIN | {"div", "grad", "dx"}, FIN], mikinds=("fixed",), **dict(kw, chain="strict")),
+        Slice("math2", [("z", ()), ("o", ())], MATH | {"mul", "grad"}, 4, idx=(10,), jets=J2, fixed={"z": 0, "o": 1},
+              levels=[MATH | {"mul"}, {"exp", "ln", "sin", "cos", "mul"}, {"grad"}, FIN], mikinds=("fixed",), **dict(kw, chain="strict")),
         Slice("d3", [F3, P3], {"grad", "div", "curl", "nabla_grad", "dx"}, 2, idx=(10,), maxdim=3, gdim=3, jets=J3, levels=[{"grad", "div", "curl", "nabla_grad", "dx"}, FIN], mikinds=("name", "fixed"), **kw),
+    ]
+    # geometric quantities under the derivative operators (non-immersed affine cells): x with grad x = I,
+    # cellwise constants with zero gradient
+    GO = {"x": {"kind": "x"}, "vol": {"kind": "vol"}}
+    gkw = dict(finalops=FIN, only_final=True, nenv=2, pipeline=dict(options=[], opts=GO))
+    out += [
+        Slice("geom", [F, ("x", (2,)), ("vol", ())], D2 | E, 3, idx=(10,), levels=[{"mul", "dot", "index", "div", "inner"}, D2, FIN], mikinds=("fixed",), **gkw),
+        Slice("geom-d", [("x", (2,)), ("vol", ())], D2, 3, idx=(10,), levels=[D2, {"grad", "div", "dx"}, FIN], mikinds=("fixed",), **gkw),
     ]
     if not q:
         out += [
@@ -76,7 +95,7 @@ def run(ctx, args):
         "case = one program; non-trivial = predicted value defined"
     )
     ctx.assume("terminals are smooth fields with independent generic first and second derivative data (symmetric Hessians); at most two nested spatial derivatives (series truncated at s t)")
-    ctx.assume("geometric quantities (grad of SpatialCoordinate etc.) are checked in the geometry part below on affine cells")
+    ctx.assume("geometric quantities: SpatialCoordinate (grad x = I) and CellVolume (cellwise constant) on non-immersed affine triangles; immersed cells are not judged (ufl returns the identity for grad x there)")
     only = os.environ.get("VERIF_SLICES")
     sls = [sl for sl in slices(ctx.tier) if not only or sl.name in only.split(",")]
     run_slices(ctx, sls, "C03", post=structural, accept=refusal)
